@@ -1,4 +1,5 @@
 import dis
+import re
 import yaml
 from typing import (
     Any,
@@ -40,6 +41,13 @@ from numba_scfg.core.datastructures.block_names import (
 )
 
 
+# The form of the names handed out by the NameGenerator.
+_GENERATED_NAME = re.compile(
+    r"^(?:(?P<kind>.+)_(?:block|region)_(?P<index>\d+)"
+    r"|__scfg_(?P<var_kind>.+)_var_(?P<var_index>\d+)__)$"
+)
+
+
 @dataclass(frozen=True)
 class NameGenerator:
     """Unique Name Generator.
@@ -55,6 +63,28 @@ class NameGenerator:
     """
 
     kinds: dict[str, int] = field(default_factory=dict)
+
+    def reserve(self, name: str) -> None:
+        """Reserve a name that is already in use.
+
+        If the given name has the form of a generated name, the index of the
+        respective kind is advanced beyond the index used by that name, such
+        that the name will never be handed out by this generator. Names of
+        any other form can not clash with generated names and are ignored.
+
+        Parameters
+        ----------
+        name: str
+            The name of an existing block, region or variable.
+        """
+        match = _GENERATED_NAME.match(name)
+        if match is None:
+            return
+        if match.group("kind") is not None:
+            kind, index = match.group("kind"), int(match.group("index"))
+        else:
+            kind, index = match.group("var_kind"), int(match.group("var_index"))
+        self.kinds[kind] = max(self.kinds.get(kind, 0), index + 1)
 
     def new_block_name(self, kind: str) -> str:
         """Generate a new unique name for a block of the specified kind.
@@ -175,6 +205,11 @@ class SCFG(Sized):
     region: RegionBlock = field(init=False, compare=False)
 
     def __post_init__(self) -> None:
+        # The names of the blocks, regions and control variables that the
+        # graph already contains (e.g. a graph that was read back from a
+        # dictionary, or whose blocks were named by another generator) must
+        # never be generated again.
+        self._reserve_names(self.graph)
         name = self.name_gen.new_region_name("meta")
         new_region = RegionBlock(
             name=name,
@@ -185,6 +220,19 @@ class SCFG(Sized):
             subregion=self,
         )
         object.__setattr__(self, "region", new_region)
+
+    def _reserve_names(self, graph: Mapping[str, BasicBlock]) -> None:
+        """Reserve all names used in the given graph and its sub-graphs."""
+        for name, block in graph.items():
+            self.name_gen.reserve(name)
+            if isinstance(block, SyntheticBranch):
+                self.name_gen.reserve(block.variable)
+            elif isinstance(block, SyntheticAssignment):
+                for variable in block.variable_assignment:
+                    self.name_gen.reserve(variable)
+            elif isinstance(block, RegionBlock):
+                if block.subregion is not None:
+                    self._reserve_names(block.subregion.graph)
 
     def __getitem__(self, index: str) -> BasicBlock:
         """Access a block from the graph dictionary using the block name.
